@@ -185,6 +185,9 @@ Fixpoint search_idx {A} (f : A -> bool) (l : list A) : Z :=
   | x :: t => if f x then 0 else 1 + search_idx f t
   end.
 
+Section WithFixes.
+Variable fx : fixes.
+
 (** findSegMetaFromTime *)
 Definition seg_meta_from_time (r : arep) (loopMS : Z) (c : cfg) (time nowMS : Z) : hm meta :=
   let wrapDur := Z.quot (i64 (loopMS * r_ts r)) 1000 in
@@ -194,10 +197,11 @@ Definition seg_meta_from_time (r : arep) (loopMS : Z) (c : cfg) (time nowMS : Z)
   let wrapTime := i64 (nrWraps * wrapDur) in
   let tAfter := u64 (itime - wrapTime) in
   let idx := search_idx (fun s => tAfter <=? s_st s) (r_segs r) in
+  let no_start := if fx_time404 fx then e404 else HStatus 500 "writeSegment" in
   match nthZ idx (r_segs r) with
-  | None => Ret (HStatus 500 "writeSegment")
+  | None => Ret no_start
   | Some s =>
-    if negb (s_st s =? tAfter) then Ret (HStatus 500 "writeSegment") else
+    if negb (s_st s =? tAfter) then Ret no_start else
     let mediaRef := c_startS c * r_ts r in
     let avail := PrimFloat.div (f_of_int (i64 (s_en s + wrapTime + mediaRef))) (f_of_int (r_ts r)) in
     with_tsbd "app.findSegMetaFromTime" c (fun tsbd =>
@@ -215,7 +219,8 @@ Definition rep_type (c : cfg) (segPart : string) : Z :=
 Definition lookup_plain (r : arep) (loopMS : Z) (c : cfg) (segPart : string) (segID nowMS : Z) : hm meta :=
   if rep_type c segPart =? 0 then
     let nr := u32 segID in
-    if nr <? u32 (start_nr c) then Ret e404 else seg_meta_from_nr r loopMS c nr nowMS
+    if (fx_segnr404 fx && (maxu32 <? segID)) || (nr <? u32 (start_nr c)) then Ret e404
+    else seg_meta_from_nr r loopMS c nr nowMS
   else seg_meta_from_time r loopMS c (u64 segID) nowMS.
 
 (** the second loop of findRefSegMetaFromTime: first segment from [relNr] on with EndTime > t *)
@@ -231,7 +236,7 @@ Definition ref_meta_from_time (a : asset) (r : arep) (c : cfg) (time nowMS : Z) 
   | None => Ret e500
   | Some sd =>
     if sd =? 0 then Ret e500 else
-    if negb (Z.rem time sd =? 0) then Ret e500 else
+    if negb (Z.rem time sd =? 0) then Ret (if fx_time404 fx then e404 else e500) else
     let ref := a_ref a in
     let refTot := rep_duration ref in
     let nrSegs := lenZ (r_segs ref) in
@@ -265,11 +270,9 @@ Definition ref_meta_from_time (a : asset) (r : arep) (c : cfg) (time nowMS : Z) 
 Definition find_ref_seg_meta (a : asset) (r : arep) (c : cfg) (segPart : string) (segID nowMS : Z) : hm meta :=
   if rep_type c segPart =? 0 then
     let nr := u32 segID in
-    if nr <? u32 (start_nr c) then Ret e404 else seg_meta_from_nr (a_ref a) (a_loopMS a) c nr nowMS
+    if (fx_segnr404 fx && (maxu32 <? segID)) || (nr <? u32 (start_nr c)) then Ret e404
+    else seg_meta_from_nr (a_ref a) (a_loopMS a) c nr nowMS
   else ref_meta_from_time a r c (u64 segID) nowMS.
-
-Section WithFixes.
-Variable fx : fixes.
 
 (** * Traffic (BaseURL loss patterns) *)
 
@@ -480,7 +483,7 @@ Fixpoint status_loop (a : asset) (c : cfg) (r mr : arep) (m : meta) (codes : lis
 Definition calc_status_code (a : asset) (c : cfg) (segPart : string) (nowMS : Z) : hm Z :=
   match find_rep (a_reps a) segPart with
   | RMnone => Ret e404
-  | RMbad => Ret e500
+  | RMbad => Ret (if fx_segnr404 fx then e404 else e500)
   | RMok r segID =>
     hdo mm <- (if String.eqb (r_ctype r) "audio"
                then hdo m <- find_ref_seg_meta a r c segPart segID nowMS; Cont (m, a_ref a)
@@ -514,14 +517,24 @@ Definition encrypt_frags (e : env) (c : cfg) (r : arep) : hm unit :=
   else if e_drm e then Ret e500
   else Ret (HPanic "app.encryptFrags: nil dereference").
 
+(** calcAudioTimeFromRef (uint64 arithmetic; frameDur and refTimescale are not 0 here) *)
+Definition audio_time_from_ref (refTime refTs frameDur audioTs : Z) : Z :=
+  if (refTs =? 0) || (frameDur =? 0) then 0 else
+  let t := u64 (u64 (refTime * audioTs) / refTs / frameDur * frameDur) in
+  if u64 (t * refTs) <? u64 (refTime * audioTs) then u64 (t + frameDur) else t.
+
 (** createOutSeg as far as the status goes: the representation and its segMeta *)
 Definition create_out_seg (a : asset) (c : cfg) (segPart : string) (nowMS : Z) : hm (arep * meta) :=
   match find_rep (a_reps a) segPart with
   | RMnone => Ret e404
-  | RMbad => Ret e500
+  | RMbad => Ret (if fx_segnr404 fx then e404 else e500)
   | RMok r segID =>
     if String.eqb (r_ctype r) "audio" && negb (r_preenc r) then
-      hdo m <- find_ref_seg_meta a r c segPart segID nowMS; Cont (r, m)
+      hdo m <- find_ref_seg_meta a r c segPart segID nowMS;
+      (* C08-time-404.diff: an audio $Time$ must be the start time the recipe computes *)
+      if fx_time404 fx && negb (rep_type c segPart =? 0) &&
+         negb (audio_time_from_ref (m_time m) (m_ts m) (match r_csd r with Some sd => sd | None => 0 end) (r_ts r) =? u64 segID)
+      then Ret e404 else Cont (r, m)
     else
       hdo m <- lookup_plain r (a_loopMS a) c segPart segID nowMS; Cont (r, m)
   end.
@@ -612,7 +625,8 @@ Definition split_period (a : asset) (c : cfg) (pph startTimeMS nowMS : Z) : hres
   if pph =? 0 then HPanic "app.splitPeriod: integer divide by zero" else
   let periodDur := Z.quot 3600 pph in
   if a_segDurMS a =? 0 then HPanic "app.splitPeriod: integer divide by zero" else
-  if negb (Z.rem (periodDur * 1000) (a_segDurMS a) =? 0) then HStatus 500 "not a multiple of segment duration" else
+  if negb (Z.rem (periodDur * 1000) (a_segDurMS a) =? 0)
+  then HStatus (if fx_mpd_status fx then 400 else 500) "not a multiple of segment duration" else
   if periodDur * 1000 =? 0 then HPanic "app.splitPeriod: integer divide by zero" else
   let startP := Z.quot startTimeMS (periodDur * 1000) in
   let endP := Z.quot nowMS (periodDur * 1000) in
@@ -624,7 +638,7 @@ Definition split_period (a : asset) (c : cfg) (pph startTimeMS nowMS : Z) : hres
 
 (** LiveMPD as far as it can fail *)
 Definition live_mpd (e : env) (a : asset) (c : cfg) (mpdName : string) (nowMS : Z) : hres :=
-  if negb (existsb (String.eqb mpdName) (a_mpds a)) then HStatus 500 "unknown mpd name" else
+  if negb (existsb (String.eqb mpdName) (a_mpds a)) then HStatus (if fx_mpd_status fx then 404 else 500) "unknown mpd name" else
   match c_tsbd c with
   | None => HPanic "app.LiveMPD: nil dereference"
   | Some tsbd =>
@@ -637,7 +651,7 @@ Definition live_mpd (e : env) (a : asset) (c : cfg) (mpdName : string) (nowMS : 
     let st0 := i64 (endMS - i64 (tsbd * 1000000000) / 1000000) in
     let startTimeMS := if st0 <? startMS then startMS else st0 in
     if negb (String.eqb (c_drm c) "") && negb (is_eccp (c_drm c)) then HStatus 500 "DRM" else
-    if (c_segTimeline c || c_segTimelineNr c) && f_is_pinf (c_ato c) then HStatus 500 "infinite availabilityTimeOffset" else
+    if (c_segTimeline c || c_segTimelineNr c) && f_is_pinf (c_ato c) then HStatus (if fx_mpd_status fx then 400 else 500) "infinite availabilityTimeOffset" else
     match c_pph c with
     | None => ok200
     | Some pph => split_period a c pph (i64 (startTimeMS - startMS)) (i64 (endMS - startMS))  (* /repo 961c9dc *)
